@@ -176,6 +176,9 @@ def execute(case):
         if feats.get('input_residual'):
             first = next(i['m'] for i in spec['prog'] if i['op'] == 'call' and spec['mods'][i['m']]['t'].startswith('conv'))
             want_feat.add(first)
+        excluded = set(ctor.get('exclude_names', ()))
+        want_time -= excluded
+        want_feat -= excluded
         bump('frozen_set_checks')
         if got_time != want_time:
             fail('receptive-field/dilation masks frozen by PIT are not exactly those of the strided Conv1d layers',
